@@ -113,8 +113,119 @@ static RunOutcome check_roundtrip(const std::string &prop, const Plan &P) {
     return out;
 }
 
+// ------------------------------------------------------------------ C14: write-once monitor over the complete backend write history
+struct WoChunk { uint64_t off; uint32_t plen; uint8_t tag; uint64_t payload_off, end; };
+static void write_once_monitor(const SFile *f, const std::string &prop, Violations &v, RunOutcome &out) {
+    std::vector<uint8_t> img; std::map<uint64_t, WoChunk> chunks; uint64_t parse_pos = 32; bool in_payload = false; WoChunk cur{};
+    uint64_t n_inplace_hdr = 0, n_inplace_head = 0, n_filehdr = 0, n_append = 0; size_t opi = 0;
+    auto parse = [&]() {
+        for (;;) {
+            if (!in_payload) {
+                if (img.size() < parse_pos + 32) return;
+                const uint8_t *h = img.data() + parse_pos;
+                cur.off = parse_pos; memcpy(&cur.plen, h + 20, 4); cur.tag = h[16]; cur.payload_off = parse_pos + 32;
+                uint64_t disk = cur.plen ? (uint64_t) cur.plen + ((8 - ((cur.plen + 4) & 7)) & 7) + 4 : 0;
+                cur.end = cur.payload_off + disk;
+                if (specdec::crc32c(h, 28) != *(const uint32_t *) (h + 28)) { add_violation(v, prop, "appended_header_bad_crc", fmt("appended chunk header @%llu has no valid crc (log op %zu)", (unsigned long long) parse_pos, opi)); parse_pos = UINT64_MAX / 2; return; }
+                chunks[cur.off] = cur; in_payload = true;
+            }
+            if (img.size() < cur.end) return;
+            parse_pos = cur.end; in_payload = false;
+        }
+    };
+    for (opi = 0; opi < f->log.size(); ++opi) {
+        const WOp &o = f->log[opi];
+        if (o.kind == W_TRUNC) {
+            if (!(o.off == 0 && img.empty())) add_violation(v, prop, "truncate", fmt("ftruncate/O_TRUNC to %llu while the file holds %zu bytes (log op %zu, plan op %d)", (unsigned long long) o.off, img.size(), opi, o.op), o.op);
+            img.resize(o.off);
+            continue;
+        }
+        if (o.kind != W_WRITE) continue;
+        const uint8_t *data = f->logbytes.data() + o.data_pos;
+        if (o.off == img.size()) { img.insert(img.end(), data, data + o.len); ++n_append; parse(); continue; }
+        if (o.off > img.size()) { add_violation(v, prop, "write_beyond_eof", fmt("write of %llu bytes at %llu beyond the end %zu (log op %zu, plan op %d)", (unsigned long long) o.len, (unsigned long long) o.off, img.size(), opi, o.op), o.op); img.resize(o.off + o.len, 0); memcpy(img.data() + o.off, data, o.len); continue; }
+        if (o.off + o.len > img.size()) {
+            // straddles the end: partly in place
+            add_violation(v, prop, "write_straddles_eof", fmt("write [%llu,+%llu) overlaps existing bytes and extends the file (size %zu; log op %zu, plan op %d)", (unsigned long long) o.off, (unsigned long long) o.len, img.size(), opi, o.op), o.op);
+            img.resize(o.off + o.len, 0); memcpy(img.data() + o.off, data, o.len); continue;
+        }
+        // ---- in place
+        bool ok = false; std::string why;
+        auto it = chunks.find(o.off);
+        if (o.off == 0 && o.len == 32) { ok = true; ++n_filehdr; }
+        else if (o.len == 32 && it != chunks.end()) {
+            if (memcmp(img.data() + o.off + 16, data + 16, 12) != 0) why = "chunk header rewrite changes tag/meta/payload lengths";
+            else if (specdec::crc32c(data, 28) != *(const uint32_t *) (data + 28)) why = "chunk header rewrite carries a bad crc";
+            else { ok = true; ++n_inplace_hdr; }
+        } else {
+            // head table payload or its footer
+            for (auto &kv : chunks) {
+                const WoChunk &c = kv.second;
+                bool is_head = (c.tag & 0xe0) == 0x20 && (c.tag & 7) == 1 && c.plen == 128;
+                if (!is_head || o.off < c.payload_off || o.off + o.len > c.end) continue;
+                if (o.off == c.payload_off && o.len == 128) {
+                    ok = true;
+                    for (int k = 0; k < 16; ++k) {
+                        uint64_t a, b2; memcpy(&a, img.data() + o.off + 8 * k, 8); memcpy(&b2, data + 8 * k, 8);
+                        if (a == b2) continue;
+                        if (a != 0) { ok = false; why = fmt("head table entry %d changes from %llu to %llu", k, (unsigned long long) a, (unsigned long long) b2); break; }
+                        if (!chunks.count(b2)) { ok = false; why = fmt("head table entry %d set to %llu which is not a known chunk", k, (unsigned long long) b2); break; }
+                    }
+                    if (ok) ++n_inplace_head;
+                } else if (o.off == c.payload_off + 128 && o.off + o.len == c.end) { ok = true; }
+                else why = "partial write inside a head table";
+                break;
+            }
+            if (!ok && why.empty()) why = "in-place write to stored chunk content";
+        }
+        if (!ok) add_violation(v, prop, "stored_content_rewritten", fmt("in-place write [%llu,+%llu): %s (log op %zu, plan op %d)", (unsigned long long) o.off, (unsigned long long) o.len, why.c_str(), opi, o.op), o.op);
+        memcpy(img.data() + o.off, data, o.len);
+    }
+    out.ctr["wo_appends"] += n_append; out.ctr["wo_inplace_header"] += n_inplace_hdr; out.ctr["wo_inplace_head_table"] += n_inplace_head; out.ctr["wo_file_header"] += n_filehdr; out.ctr["wo_chunks"] += chunks.size();
+    if (n_inplace_hdr + n_inplace_head > 0) out.nontrivial = true;
+    if (img != f->bytes) add_violation(v, prop, "monitor_image_mismatch", "harness: replayed write log differs from the file (monitor error)");
+}
+
+static void decoder_check(const std::string &prop, const std::vector<uint8_t> &bytes, const Model *m, const char *producer, Violations &v, RunOutcome &out, bool check_summaries = true) {
+    specdec::Decoded d; specdec::decode(bytes, d, true);
+    for (auto &e : d.errors) { size_t bar = e.find('|'); add_violation(v, prop, "format_" + e.substr(0, bar), std::string(producer) + ": " + e.substr(bar + 1)); }
+    if (m && d.errors.empty()) {
+        std::vector<std::string> ce; specdec::ContentOpts o; o.check_summaries = check_summaries;
+        specdec::compare_with_model(bytes, d, *m, o, ce);
+        for (auto &e : ce) { size_t bar = e.find('|'); add_violation(v, prop, e.substr(0, bar), std::string(producer) + ": " + e.substr(bar + 1)); }
+    }
+    out.ctr[std::string("decoded_files_") + producer]++; out.ctr["decoded_chunks"] += d.chunks.size();
+    int lv = specdec::max_fsr_level(d); out.ctr["decoded_max_level_" + std::to_string(lv)]++;
+    if (lv >= 1 && d.chunks.size() >= 20) out.nontrivial = true;
+    out.unit_hashes.push_back(fnv1a(bytes.data(), bytes.size()));
+}
+
+static RunOutcome check_format(const std::string &prop, const Plan &P) {
+    RunOutcome out; AResult A;
+    setup_world(P);
+    count_ops(P, out);
+    bool c14 = prop == "C14";
+    if (write_phase(P, prop, A, out, c14, true)) {
+        SFile *f = simfs::get(PATH_A);
+        if (c14) { write_once_monitor(f, prop, out.viol, out); }
+        else {
+            decoder_check(prop, f->bytes, &A.m, P.use_twr ? "threaded_writer" : "sync_writer", out.viol, out);
+            if (read_phase(P, prop, A, out, false)) oracle::check_dump(prop, A.m, P, A.d, out.viol, false);
+            // jls_copy output must conform too
+            int rc = -1; RunStatus st = exec::copy_file(PATH_A, "/sim/copy.jls", &rc);
+            if (st != RUN_OK) add_violation(out.viol, prop, std::string("copy_") + sim::status_name(st), "jls_copy did not finish");
+            else if (rc == 0) { SFile *c = simfs::get("/sim/copy.jls"); if (c) decoder_check(prop, c->bytes, nullptr, "copy", out.viol, out); }
+        }
+        out.sample = fmt("%zu ops, file %zu bytes%s", P.ops.size(), f->bytes.size(), P.use_twr ? ", threaded writer" : "");
+    }
+    finish_outcome(out);
+    sim::cleanup();
+    return out;
+}
+
 RunOutcome run_check(const std::string &prop, const Plan &P, int tier) {
     (void) tier;
+    if (prop == "C05" || prop == "C14") return check_format(prop, P);
     if (prop == "C01" || prop == "C02" || prop == "C09" || prop == "C11" || prop == "C12" || prop == "C13") return check_roundtrip(prop, P);
     RunOutcome out;
     add_violation(out.viol, prop, "no_such_check", "check not implemented");
